@@ -19,6 +19,8 @@
       do not wrap (`uint8_t path_len` wraps at 256 in the current tree: finding F19);
     * stream offsets are unbounded (`uint16_t` in the current tree: total size must stay < 65536);
     * `sig_len` is `sig.length`, `nlri->nlri` holds exactly `(nlri_len+7)/8` bytes;
+    * `stop = false` is the validation loop of the current tree (bounded by the stream offset only),
+      `stop = true` the repaired loop that also ends with the Signature Segment list;
     * `KeyMode.skiOnly` is what the current tree does (router keys selected by SKI only, F10),
       `KeyMode.skiAndAs` is the repaired behaviour (the key must also be registered for the AS of
       the corresponding Secure_Path segment).
@@ -194,12 +196,13 @@ def tryKeys (m : KeyMode) (h : H) (sig : List Nat) (asn : Nat) : List Key → Rc
 
 /-- the `for (offset = 0, next_offset = 0; offset <= size && retval == VALID; offset += next_offset)`
     loop.  `ss`/`ps` are `tmp_sig` and the Secure_Path cursor, `off` is `offset`.
-      * `ss = []` is `tmp_sig == NULL`: the C code evaluates `tmp_sig->next` if the loop condition
-        still holds there → `fault`;
+      * `ss = []` is `tmp_sig == NULL`: the current C code evaluates `tmp_sig->next` if the loop
+        condition `offset <= size` still holds there → `fault` (`stop = false`; finding "loop overrun");
+        the repaired loop also tests `tmp_sig` (`stop = true`);
       * the hashed bytes are the stream suffix from `off` (`read_stream_at` with `len = size - off`);
       * `next_offset = sig_len(next segment, or this one if it is the last) + 20 + 2 + 6`. -/
-def valLoop (m : KeyMode) (T : Table) (stream : List Nat) : List SigSeg → List PathSeg → Nat → Rc
-  | [], _, off => if off ≤ stream.length then .fault else .valid
+def valLoop (m : KeyMode) (stop : Bool) (T : Table) (stream : List Nat) : List SigSeg → List PathSeg → Nat → Rc
+  | [], _, off => if stop then .valid else if off ≤ stream.length then .fault else .valid
   | s :: ss, ps, off =>
     if stream.length < off then .valid
     else
@@ -209,23 +212,23 @@ def valLoop (m : KeyMode) (T : Table) (stream : List Nat) : List SigSeg → List
       let h := hash (stream.drop off)
       let asn := (ps.head?.map (·.asn)).getD 0
       let r := tryKeys verify m h s.sig asn (searchBySki T s.ski) .valid
-      if r = .valid then valLoop m T stream ss ps.tail (off + (nextLen + 28)) else r
+      if r = .valid then valLoop m stop T stream ss ps.tail (off + (nextLen + 28)) else r
 
 /-- `rtr_bgpsec_validate_as_path` after the NULL checks of `data` and `table` -/
-def validate (m : KeyMode) (d : Data) (T : Table) : Rc :=
+def validate (m : KeyMode) (stop : Bool) (d : Data) (T : Table) : Rc :=
   if d.path = [] ∨ d.sigs = [] then .invalidArguments
   else if d.path.length ≠ d.sigs.length then .wrongSegmentCount
   else if d.alg ≠ 1 then .unsupportedAlgorithmSuite
   else if d.nlri.afi ≠ 1 ∧ d.nlri.afi ≠ 2 then .unsupportedAfi
   else
     match checkRouterKeys m T d.sigs d.path with
-    | .success => valLoop hash verify m T (alignBytes .validation d) d.sigs d.path 0
+    | .success => valLoop hash verify m stop T (alignBytes .validation d) d.sigs d.path 0
     | e => e
 
 /-- `rtr_bgpsec_validate_as_path` including `!data || !table` -/
-def validateArgs (m : KeyMode) (d : Option Data) (T : Option Table) : Rc :=
+def validateArgs (m : KeyMode) (stop : Bool) (d : Option Data) (T : Option Table) : Rc :=
   match d, T with
-  | some d, some T => validate hash verify m d T
+  | some d, some T => validate hash verify m stop d T
   | _, _ => .invalidArguments
 
 end crypto
